@@ -266,7 +266,7 @@ def __getattr__(tag_name: str) -> int:
     TagNotFoundError
         If tag does not exist.
     """
-    if tag_name not in _module_library.__dict__:
+    if tag_name not in _module_library._tag_names:  # (the library's own attributes are not tags)
         raise TagNotFoundError(tag_name)
     else:
         return _module_library.__dict__[tag_name]
